@@ -279,7 +279,7 @@ func dynClass(types []cty.Type, i int) string {
 }
 
 func (Driver) Run(c *core.Ctx) {
-	n := int64(c.N(3750, 94000)) // x16 batches = 60 k lists quick, x64 = 1.5 M thorough
+	n := int64(c.N(22000, 94000)) // x16 batches = 60 k lists quick, x64 = 1.5 M thorough
 	for i := int64(0); i < n; i++ {
 		if !c.Want(i) {
 			continue
